@@ -137,6 +137,112 @@ def run_ftp_sessions(recorder, specs):
     return results
 
 
+def gen_overlap_case(rng):
+    '''Several exchanges in flight at once (as with --concurrent N) on one recorder that rolls its file over at a small
+    size: records are started before and written after a rollover that another session caused.'''
+    cfg = gen_config(rng)
+    cfg.update({'max_size': rng.choice([300, 700, 1500, 4000, None]), 'appending': False, 'dedup': False, 'rerun': False, 'log': rng.random() < 0.2})
+    streams = []
+    for k in range(rng.choice([2, 3, 4])):
+        streams.append([httpgen.gen_response(rng, allow=['length', 'length', 'chunked', 'length0', 'nobody'])
+                        for _ in range(rng.choice([1, 2, 3]))])
+    return {'overlap': True, 'config': cfg, 'streams': streams, 'seg_seed': rng.randrange(1 << 30), 'seg_mode': 'overlap',
+            'seq': [r for st in streams for r in st]}
+
+
+def run_overlap_case(case, keep_dir=None):
+    import asyncio
+    from harness import netsim
+    from wpull.warc.recorder import WARCRecorder, WARCRecorderParams
+    from wpull.network.pool import ConnectionPool
+    from wpull.protocol.http.client import Client
+    cfg = case['config']
+    tmp = keep_dir or tempfile.mkdtemp(prefix='vwarc')
+    prefix = os.path.join(tmp, 'out')
+    root_logger = logging.getLogger()
+    saved_level = root_logger.level
+    saved_handlers = list(root_logger.handlers)
+    obs = {'config': cfg, 'exchanges': [], 'files': {}, 'error': None, 'seg_mode': 'overlap', 'overlaps': 0}
+    rng = random.Random(case['seg_seed'])
+
+    class DelayedPeer(netsim.HTTPScriptPeer):
+        '''Delivers each response in pieces with idle loop turns in between, so that exchanges of other streams begin,
+        finish and trigger rollovers while this one is in flight.'''
+        async def _serve(self, conn, resp, idx):
+            for piece in resp['pieces']:
+                for _ in range(resp['delays'].pop() if resp['delays'] else 0):
+                    await asyncio.sleep(0)
+                if not await conn.feed_pieces([piece], self.settle):
+                    break
+            self.feed_done[idx] = True
+
+    async def main():
+        net = netsim.Net().install()
+        try:
+            table, peers = {}, []
+            for k, stream in enumerate(case['streams']):
+                responses = []
+                for i, r in enumerate(stream):
+                    pieces = pieces_for(rng, r, rng.choice(['whole', 'cut', 'random']))
+                    responses.append({'pieces': pieces, 'delays': [rng.choice([0, 0, 1, 3, 10, 40]) for _ in pieces], 'then': 'keep',
+                                      'url': 'http://s{}.test/r{}'.format(k, i)})
+                peer = DelayedPeer(responses)
+                table['s%d.test' % k] = '127.0.1.%d' % (k + 1)
+                net.add_peer('127.0.1.%d' % (k + 1), 80, peer)
+                peers.append((peer, responses))
+            recorder = WARCRecorder(prefix, params=WARCRecorderParams(
+                compress=cfg['compress'], extra_fields=cfg['extra_fields'], temp_dir=tmp, log=cfg['log'], appending=False,
+                digests=cfg['digests'], cdx=cfg['cdx'], max_size=cfg['max_size']))
+            client = Client(connection_pool=ConnectionPool(resolver=netsim.StaticResolver(table)))
+            recorder.listen_to_http_client(client)
+            in_flight = [0]
+
+            async def run_stream(k):
+                peer, responses = peers[k]
+                outs = []
+                for i, resp in enumerate(responses):
+                    if in_flight[0]:
+                        obs['overlaps'] += 1
+                    in_flight[0] += 1
+                    try:
+                        outs.append(await httpdrive.one_exchange(client, resp['url'], case['streams'][k][i]['method'], peer, i))
+                    finally:
+                        in_flight[0] -= 1
+                    if outs[-1]['error'] == 'STALL':
+                        break
+                return outs
+            results = await asyncio.gather(*[run_stream(k) for k in range(len(peers))])
+            recorder.close()
+            try:
+                client.close()
+            except Exception:
+                pass
+            for k, outs in enumerate(results):
+                peer, responses = peers[k]
+                for i, r in enumerate(case['streams'][k]):
+                    out = outs[i] if i < len(outs) else {'error': 'NOT-RUN'}
+                    obs['exchanges'].append({
+                        'url': responses[i]['url'], 'request_bytes': peer.requests[i][1] if i < len(peer.requests) else None,
+                        'response_bytes': r['wire'][:len(r['wire']) - r['surplus']], 'error': out.get('error'),
+                        'classes': r['classes'], 'method': r['method'], 'round': 0, 'expect_revisit': False})
+        finally:
+            net.uninstall()
+    try:
+        netsim.run(main(), timeout=120)
+        for path in sorted(glob.glob(prefix + '*')):
+            with open(path, 'rb') as f:
+                obs['files'][os.path.basename(path)] = f.read()
+        obs['leftover_tmp'] = sorted(os.path.basename(p) for p in glob.glob(os.path.join(tmp, 'tmp-*')))
+    finally:
+        for h in list(root_logger.handlers):
+            if h not in saved_handlers:
+                root_logger.removeHandler(h)
+        root_logger.setLevel(saved_level)
+        if not keep_dir:
+            shutil.rmtree(tmp, ignore_errors=True)
+    return obs
+
+
 class Visits(object):
     '''The crawler's own URL table (in memory) as the dedup source, as --warc-dedup fills it from a CDX file: the
     harness adds (url, record id, payload digest) visits and logs the recorder's queries.'''
@@ -156,6 +262,8 @@ class Visits(object):
 
 
 def run_case(case, keep_dir=None):
+    if case.get('overlap'):
+        return run_overlap_case(case, keep_dir)
     from wpull.warc.recorder import WARCRecorder, WARCRecorderParams
     cfg = case['config']
     rng = random.Random(case['seg_seed'])
